@@ -103,7 +103,23 @@ def generate(pid, tier, seed, n):
 
 
 def execute(scs):
-    return [scen.run_impl(s) for s in scs]
+    """after six scenarios that hit the wall-clock limit the rest is not run (a change that makes runs endless would otherwise cost
+    20 s per scenario); the skipped ones count as timeouts"""
+    out, t = [], 0
+    for s in scs:
+        if t >= 6:
+            out.append(dict(err='Other:Timeout-skipped', rows=None, marks=[], oracle=[], pre=[], part=[], static=None))
+            continue
+        r = scen.run_impl(s)
+        if (r['err'] or '').startswith('Other:Timeout'):
+            t += 1
+        out.append(r)
+    return out
+
+
+def runaway(r):
+    """interrupted by the harness while holding more instants than all the grids of the scenario allow: a fact about the time axis"""
+    return (r.get('err') or '') == 'Other:Timeout' and r.get('timeout_instants', 0) > r.get('allowed_instants', 1 << 60)
 
 
 def compare(name, scs, res, per=25):
@@ -190,8 +206,16 @@ def correspondence(pid, tier, seed):
         grid_broken = [b for b in rel['broken']]
     if pid in ('C11', 'C12'):
         grid_broken, grid_n = grid_correspondence(seed, lib.size(9, 60, tier))
+    # a scenario that hit the wall-clock limit is run once more with three times the limit (at most three of them) (a loaded machine); what still does not return
+    # is a broken tie only if it is a runaway (more instants on record than the scenario's grids allow), otherwise it is only counted
+    retried = 0
+    for i, (s_, r_) in enumerate(zip(scs, res)):
+        if (r_['err'] or '') == 'Other:Timeout' and not runaway(r_) and retried < 3:
+            retried += 1
+            res[i] = scen.run_impl(s_, timeout=60)
     usable = [(s, r) for s, r in zip(scs, res) if not (r['err'] or '').startswith('Other:Timeout') and not r.get('build_failed')]
-    timeouts = len(scs) - len(usable)
+    timeouts = sum(1 for r in res if runaway(r))
+    unreturned = sum(1 for r in res if (r['err'] or '').startswith('Other:Timeout')) - timeouts
     scs2 = [s for s, _ in usable]
     res2 = [r for _, r in usable]
     mism_all, errs = compare('solver_' + pid, scs2, res2)
@@ -204,8 +228,10 @@ def correspondence(pid, tier, seed):
     broken = list(grid_broken)
     if errs:
         broken.append('solver correspondence: a case file did not evaluate: ' + errs[0][1][-300:])
-    if timeouts:
-        broken.append(f'solver correspondence: {timeouts} scenario(s) did not terminate on the implementation within the time limit')
+    if timeouts and pid in ('C11', 'C12', 'C16'):          # the properties that speak of which instants exist
+        ex = next(r for r in res if runaway(r))
+        broken.append(f'solver correspondence: on {timeouts} scenario(s) gearpy was still running at the time limit with more instants on record than the grids allow '
+                      f'(first: {ex["timeout_instants"]} recorded, at most {ex["allowed_instants"]} allowed); the model returns')
     plain_mismatch = False
     if pid == 'C12' and mism:
         plain_mismatch = not schedule_specific([scs2[g] for g, _, _ in mism[:12]])
@@ -231,7 +257,8 @@ def correspondence(pid, tier, seed):
     rows = sum(len(r['rows'] or []) for r in res2)
     samples = [dict(motor=s['motor'], elems=s['elems'], load=s['load'], ops=s['ops']) for s in scs2[:2]]
     return dict(ok=not broken, evaluations=len(scs2), nontrivial=nt, samples=samples, rule=RULE[pid],
-                distribution=dict(outcomes=dist, chain_sizes=sizes, recorded_instants=rows, mismatching_any_field=len(mism), rounding_level_only=len(rounding), rounding_flipped_a_decision=diverged, long_grid_cases=grid_n),
+                distribution=dict(outcomes=dist, chain_sizes=sizes, recorded_instants=rows, mismatching_any_field=len(mism), rounding_level_only=len(rounding), rounding_flipped_a_decision=diverged, long_grid_cases=grid_n,
+                                  runaway_runs=timeouts, not_returned_within_limit=unreturned),
                 broken=broken, failing_cases=failing, _runs=(scs2, res2))
 
 
@@ -325,6 +352,7 @@ def search(pid, tier, seed, escalate, hints):
     rng = random.Random(seed * 77 + 1)
     out = []
     n_checked = 0
+    n_timeouts = 0
     runs = None
     scs = generate(pid, tier, seed + 17, (150 if tier == 'quick' else 1500) * (4 if escalate else 1))
     # the scenarios on which the model and the code disagree come first: does the property itself fail on them?
@@ -336,7 +364,13 @@ def search(pid, tier, seed, escalate, hints):
         r = scen.run_impl(sc)
         n_checked += 1
         if (r['err'] or '').startswith('Other:Timeout'):
-            out.append(O.W('timeout', 'the scenario does not terminate within the time limit', sc))
+            # the harness's wall-clock limit is not an outcome of the code; a run interrupted while already holding more instants than
+            # its grids allow is (C11)
+            n_timeouts += 1
+            if pid == 'C11' and runaway(r):
+                out.append(O.W('runaway', f'the run had recorded {r["timeout_instants"]} instants when the harness interrupted it; the grids of the scenario allow at most {r["allowed_instants"]}', sc))
+            if n_timeouts >= 6:
+                break
             continue
         if r['err'] is None:
             try:
